@@ -119,7 +119,11 @@ func PoolRelations(nmax int) map[string]any {
 			}
 		}
 	}
-	// log[n][k] = round(1e5*log10(n/k)), 1<=n<=nmax, 1<=k<=nmax+1
+	// log[n][k] = round(1e5*log10(n/k)), 1<=n<=nmax, 1<=k<=nmax+1 (text corpora
+	// are only judged on small id universes: the table is capped)
+	if nmax > 40 {
+		nmax = 40
+	}
 	lg := make([][]int, nmax)
 	for a := 1; a <= nmax; a++ {
 		lg[a-1] = make([]int, nmax+1)
